@@ -266,6 +266,17 @@ def check_map_case(ctx: Ctx, c: Dict[str, Any], variant: int = 0) -> None:
                 report(op, err, bound(scale, F32))
         if max_err(pin, torch.tensor(fl(P), dtype=torch.float64)) > 0:
             ctx.violation(dict(op="homogeneous_transform", what="mutates", **sig0), "applying the matrix changed the caller's points", c)
+    # 5. integer-typed points / vectors (e.g. voxel indices) are mapped like the same numbers in floating point
+    Pi = torch.tensor([[2, -1, 3][:len(P[0])], [0, 4, 1][:len(P[0])]], dtype=torch.int64)
+    try:
+        if vec:
+            oi, of_ = g.transform_vectors(Pi, a, b, to_grid=g2), g.transform_vectors(Pi.double(), a, b, to_grid=g2)
+        else:
+            oi, of_ = g.transform_points(Pi, a, b, to_grid=g2, decimals=None), g.transform_points(Pi.double(), a, b, to_grid=g2, decimals=None)
+        if not oi.dtype.is_floating_point or max_err(oi.double(), of_.double()) > bound(max(scale, float(of_.abs().max())), F32):
+            report("Grid.transform_%s[int64 input]" % ("vectors" if vec else "points"), max_err(oi.double(), of_.double()), bound(scale, F32), dtype=str(oi.dtype))
+    except Exception as ex:
+        ctx.violation(dict(op="Grid.transform_%s" % ("vectors" if vec else "points"), exc=type(ex).__name__, input="int64", **sig0), f"integer-typed input raised {type(ex).__name__}: {str(ex)[:100]}", c)
     ctx.count(key=(json.dumps(c["g"], sort_keys=True), a, b, vec, json.dumps(c["g2"], sort_keys=True)),
               nontrivial=(a != b or g2 is not None))
 
@@ -371,6 +382,23 @@ def check_grid_case(ctx: Ctx, c: Dict[str, Any]) -> None:
                 ctx.violation(dict(op="Grid.world_to_cube", what="center", **sigv), f"[{vname}, size {nv}] the center does not map to the middle of the cube", c)
         except Exception as ex:
             ctx.violation(dict(op="Grid.origin", exc=type(ex).__name__, variant=vname, **sig0), f"[{vname}] anchor checks raised {type(ex).__name__}: {str(ex)[:100]}", c)
+    # unnormalised coordinates: integer indices, and indices counted from the middle sample (center=True)
+    try:
+        for i_ in range(D):
+            ci_ = g.coords(dim=i_, normalize=False)
+            cc_ = g.coords(dim=i_, normalize=False, center=True)
+            want_i = torch.arange(n[i_], dtype=torch.float64)
+            if ci_.numel() != n[i_] or max_err(ci_.double(), want_i) > 0:
+                ctx.violation(dict(op="Grid.coords", what="indices", **sig0), f"coords(dim={i_}, normalize=False) = {ci_.tolist()}, expected 0..{n[i_] - 1}", c)
+            if cc_.numel() != n[i_] or max_err(cc_.double(), want_i - (n[i_] - 1) / 2) > 1e-6:
+                ctx.violation(dict(op="Grid.coords", what="centered", **sig0), f"coords(dim={i_}, normalize=False, center=True) = {cc_.tolist()}, expected indices minus (n-1)/2", c)
+        full_c = g.coords(normalize=False, center=True)
+        full_i = g.coords(normalize=False)
+        off_ = torch.tensor([(m - 1) / 2 for m in n], dtype=torch.float64)
+        if tuple(full_c.shape) != tuple(full_i.shape) or max_err(full_c.double(), full_i.double() - off_) > 1e-6:
+            ctx.violation(dict(op="Grid.coords", what="centered", full=True, **sig0), "coords(normalize=False, center=True) is not the index lattice minus (n-1)/2", c)
+    except Exception as ex:
+        ctx.violation(dict(op="Grid.coords", exc=type(ex).__name__, what="unnormalised", **sig0), f"unnormalised coords raised {type(ex).__name__}: {str(ex)[:100]}", c)
     # equality of grids / cubes: equal to a copy built from the same attributes, different from every grid that differs in one attribute
     # (the harnesses of C03..C05, C10 and C19 rely on Grid.__eq__ to compare grids)
     from deepali.core.cube import Cube
